@@ -195,6 +195,7 @@ hwloc_diff_trees(hwloc_topology_t topo1, hwloc_obj_t obj1,
 	case HWLOC_OBJ_L1ICACHE:
 	case HWLOC_OBJ_L2ICACHE:
 	case HWLOC_OBJ_L3ICACHE:
+	case HWLOC_OBJ_MEMCACHE:
 		if (memcmp(obj1->attr, obj2->attr, sizeof(obj1->attr->cache)))
 			goto out_too_complex;
 		break;
